@@ -544,6 +544,13 @@ class EscapeAnalysis:
                 excs = CONVERTERS.get(d)
                 if excs is None and d.split(".")[-1] in ("UUID",):
                     excs = CONVERTERS["UUID"]
+                if d in ("date", "datetime.date", "datetime", "datetime.datetime") and self.prog.resolve_expr(fi.module, n.func) in (None, "datetime.date", "datetime.datetime") \
+                        and (n.args or n.keywords) and not all(isinstance(a_, ast.Constant) for a_ in list(n.args) + [k_.value for k_ in n.keywords]):
+                    # a calendar constructor refuses component values that are no date (30 February), whatever checked their
+                    # shape before: numbers computed from a matched text are not a date yet
+                    self.n_ops += 1
+                    out.append((n, ("ValueError",), unparse(n.args[0]) if n.args else d, f"{short(n, 60)}: a calendar constructor raises ValueError for components that are no date (day 30 in February)"))
+                    excs = None
                 if excs:
                     args = list(n.args) + [k.value for k in n.keywords]
                     for a in args:
